@@ -106,12 +106,12 @@ theorem ifs_correct (code : Code) (fuel f : Nat) (ih : StmtIHle code fuel) (hf :
     (body : SStmt) (els : Stmt) (sfx : String) (p : Pos) (off next endOff : Nat) (σ : Vm) (s : St)
     (hc : CodeAt code off (compileExpr c ++ [(CInstr.jumpIfFalse next, p)] ++
       compileStmt sfx (off + (compileExpr c).length + 1) body ++ [(CInstr.jump endOff, p)]))
-    (hpc : σ.pc = off) (hr : Rel s σ) (sl : List Ty) (hsc : SlotsBelow sl.length c) (hnc : NumericCond c)
+    (hpc : σ.pc = off) (hr : Rel s σ) (sl : List Ty) (hsc : SlotsBelow sl.length c) (hnc : NumericCond sl c)
     (hwb : Wf sl body) (hty : Typed sl s.env)
     (hels : ∀ τ : Vm, τ.pc = next → Rel s τ → StmtSpec code 0 endOff τ s (exec f els s)) :
     StmtSpec code 0 endOff σ s (exec (f + 1) (.ifs c (desugar body) els p) s) := by
   have hcond := cond_correct code c next p off σ hc.append_left.append_left hpc
-    (by rw [hr.env, hty.len]; exact hsc) hnc
+    (by rw [hr.env, hty.len]; exact hsc) (by rw [hr.env]; exact hnc _ hty)
   rw [hr.env, hr.out] at hcond
   simp only [exec]
   cases hec : evalCond s.env c with
